@@ -8,7 +8,7 @@ package rpc
 
 //@ absfield interface vtDecoded int
 //@ interface (m VTMarshaler) UnmarshalVT(b []byte) (err error)
-//@   modifies m.vtDecoded
+//@   modifies m.vtDecoded, object(m)
 //@   ensures m.vtDecoded == old(m.vtDecoded) + 1
 
 //@ spec hdr(d gmap[int]byte, p int) uint32 = be32(d[p], d[p + 1], d[p + 2], d[p + 3])
